@@ -1,4 +1,5 @@
 import PhysisModel.Base.Bytes
+import PhysisModel.Spec.Fiin   -- only for the UTF-8 automaton (`utf8Valid`)
 /-!
 # Character preset files (`FFXIV_CHARA_nn.DAT`) — the documented layout, specification side
 
@@ -88,14 +89,16 @@ def genderCodes : List UInt8 := [0, 1]
 def tribeCodes : List UInt8 := [1, 2, 3, 4, 5, 6, 7, 8, 9, 10, 11, 12, 13, 14, 15, 16]
 
 /-- well-formed preset: documented race / gender / tribe codes; comment of at most 163 bytes
-without NUL (it is NUL-terminated inside its 164-byte field) -/
+without NUL (it is NUL-terminated inside its 164-byte field) that is text (well-formed UTF-8, as
+every Rust `String` is) -/
 def WF (p : Preset) : Prop :=
   p.appearance.race ∈ raceCodes ∧ p.appearance.gender ∈ genderCodes ∧ p.appearance.tribe ∈ tribeCodes ∧
-  p.comment.length ≤ 163 ∧ 0 ∉ p.comment
+  p.comment.length ≤ 163 ∧ 0 ∉ p.comment ∧ Spec.Fiin.utf8Valid p.comment = true
 
 instance (p) : Decidable (WF p) :=
   inferInstanceAs (Decidable (p.appearance.race ∈ raceCodes ∧ p.appearance.gender ∈ genderCodes ∧
-    p.appearance.tribe ∈ tribeCodes ∧ p.comment.length ≤ 163 ∧ 0 ∉ p.comment))
+    p.appearance.tribe ∈ tribeCodes ∧ p.comment.length ≤ 163 ∧ 0 ∉ p.comment ∧
+    Spec.Fiin.utf8Valid p.comment = true))
 
 def Canonical (b : Bytes) : Prop := ∃ p, WF p ∧ b = encode p
 
